@@ -75,9 +75,9 @@ func runThread(w *world.World, t *mast.Mast, root *mast.Root, seq []tOp) string 
 				fmt.Fprintf(&sb, "iter=%v", ks)
 				return err
 			case "ins":
-				return t.Insert(ctx, cfg.Key(op.K), cfg.Vals[op.V])
+				return t.Insert(ctx, cfg.FreshKey(op.K), cfg.FreshVal(op.V))
 			case "del":
-				return t.Delete(ctx, cfg.Key(op.K), cfg.Vals[op.V])
+				return t.Delete(ctx, cfg.FreshKey(op.K), cfg.FreshVal(op.V))
 			case "persist":
 				rt, err := t.MakeRoot(ctx)
 				if err == nil {
